@@ -4,7 +4,7 @@
    is its directional derivative.  The statements below read the derivative rules off the V-level theorems.
    Only theorem statements closed by `exact`, each followed by Print Assumptions. *)
 From Coq Require Import List Arith.
-From TT Require Import RingSig Instances Dual SumN Mat Dense Core Arith MatOps Reduce Struct CoreP ArithP MatOpsP ReduceP StructP DualP.
+From TT Require Import RingSig Instances Dual SumN Mat Dense Core Arith MatOps Reduce Struct CoreP ArithP MatOpsP ReduceP StructP DualP ReduceDimsP FrameP CoreGrad CoreGradP.
 Import ListNotations.
 
 Section C15.
@@ -48,6 +48,22 @@ Proof. exact (remaps_grad fs x idx). Qed.
 Theorem C15_entry_pr (x : tt (dual R)) idx : pr (entry x idx) = entry (map pr_core x) idx.
 Proof. exact (entry_pr x idx). Qed.
 
+(* the gradient with respect to ONE core: if only the k-th core carries a perturbation, the derivative of every entry is the frame of the other
+   cores applied to it - d x[i] / d G_k[p, j, q] = L_k(i_<k)[p] * [i_k = j] * R_k(i_>k)[q] - what autograd returns for full() w.r.t. a core *)
+Theorem C15_entry_core_grad k (x : tt (dual R)) idx c : wf x -> nth_error x k = Some c -> length idx = length x ->
+  Forall tg0 (firstn k x) -> Forall tg0 (skipn (S k) x) ->
+  tg (entry x idx) = sum_n (r0 c) (fun p => sum_n (r1 c) (fun q =>
+    pr (phiL x idx k p) * tg (e3 c p (nth k idx 0%nat) q) * pr (phiR x idx k q))).
+Proof. exact (entry_core_grad k x idx c). Qed.
+
+(* Model/CoreGrad.v (tied exactly to autograd's core gradients on integer data) IS that derivative: perturbing entry (p0, i0, q0) of core k by one
+   changes sum_idx w[idx] x[idx] by entry (p0, i0, q0) of core_grad - for every order, position, mode sizes, rank profile and weight array *)
+Theorem C15_weighted_sum_core_grad k (x : tt (dual R)) (w : list nat -> R) c p0 i0 q0 :
+  wf x -> nth_error x k = Some c -> p0 < r0 c -> q0 < r1 c ->
+  Forall tg0 (firstn k x) -> Forall tg0 (skipn (S k) x) -> unit_dir c p0 i0 q0 ->
+  tg (sum_idx (shape x) (fun idx => cst (w idx) * entry x idx)) = e3 (core_grad (map pr_core x) k w) p0 i0 q0.
+Proof. exact (weighted_sum_core_grad k x w c p0 i0 q0). Qed.
+
 End C15.
 Print Assumptions C15_dual_ring.
 Print Assumptions C15_mul_grad.
@@ -60,3 +76,5 @@ Print Assumptions C15_dot_grad.
 Print Assumptions C15_mprod1_grad.
 Print Assumptions C15_remaps_grad.
 Print Assumptions C15_entry_pr.
+Print Assumptions C15_entry_core_grad.
+Print Assumptions C15_weighted_sum_core_grad.
